@@ -5,7 +5,6 @@ import (
 	"errors"
 	"fmt"
 	"reflect"
-	"strings"
 	"time"
 
 	hydraidepbgo "github.com/hydraide/hydraide/sdk/go/hydraidego/v3/hydraidepbgo"
@@ -412,11 +411,11 @@ func populateCatalogModelFromPatchedExpired(entry *hydraidepbgo.PatchedExpiredTr
 			continue
 		}
 		switch {
-		case strings.Contains(tag, tagKey):
+		case hydraideTagHead(tag) == tagKey:
 			if v.Elem().Field(i).Kind() == reflect.String {
 				v.Elem().Field(i).SetString(entry.GetKey())
 			}
-		case strings.Contains(tag, tagExpireAt):
+		case hydraideTagHead(tag) == tagExpireAt:
 			if entry.ExpiredAt != nil {
 				field := v.Elem().Field(i)
 				if field.Type() == reflect.TypeOf(time.Time{}) {
